@@ -40,6 +40,23 @@ MUTANTS = [
     ('array-self-store', 'C17', CORE, "        discard = self.discard\n        obj = ListContainer()\n        for i in range(count):", "        discard = self.discard\n        self.lastcount = count\n        obj = ListContainer()\n        for i in range(count):"),
     ('struct-parse-writes-parent', 'C17', CORE, "                    obj[sc.name] = subobj\n                    context[sc.name] = subobj\n            except StopFieldError:\n                break\n        return obj\n\n    def _build(self, obj, stream, context, path):\n        if obj is None:\n            obj = Container()",
      "                    obj[sc.name] = subobj\n                    context[sc.name] = subobj\n                    context._[sc.name] = subobj\n            except StopFieldError:\n                break\n        return obj\n\n    def _build(self, obj, stream, context, path):\n        if obj is None:\n            obj = Container()"),
+    ('bwo-tell', 'C08', CORE, "return super().tell() + self.parent_stream_offset", "return super().tell() - self.parent_stream_offset"),
+    ('bwo-seek', 'C08', CORE, "super().seek(offset - self.parent_stream_offset)", "super().seek(offset)"),
+    ('from-reading-offset', 'C08', CORE, "        offset = stream_tell(stream, path)\n        contents = stream_read(stream, length, path)", "        contents = stream_read(stream, length, path)\n        offset = stream_tell(stream, path)"),
+    ('padded-pad', 'C03', CORE, "        pad = length - (position2 - position1)\n        if pad < 0:\n            raise PaddingError(\"subcon parsed", "        pad = length - (position2 - position1) - 1\n        if pad < 0:\n            raise PaddingError(\"subcon parsed"),
+    ('aligned-pad', 'C03', CORE, "        pad = -(position2 - position1) % modulus\n        stream_read(stream, pad, path)", "        pad = (position2 - position1) % modulus\n        stream_read(stream, pad, path)"),
+    ('const-build-none', 'C13', CORE, "if obj not in (None, self.value):", "if obj in (None, self.value):"),
+    ('peek-restore', 'C09', CORE, "        finally:\n            stream_seek(stream, fallback, 0, path)\n\n    def _build(self, obj, stream, context, path):\n        return obj", "        finally:\n            pass\n\n    def _build(self, obj, stream, context, path):\n        return obj"),
+    ('pointer-restore', 'C09', CORE, "        obj = self.subcon._parsereport(stream, context, path)\n        stream_seek(stream, fallback, 0, path)\n        return obj", "        obj = self.subcon._parsereport(stream, context, path)\n        stream_seek(stream, 0, 0, path)\n        return obj"),
+    ('rawcopy-len', 'C14', CORE, "        data = stream_read(stream, offset2-offset1, path)\n        return Container(data=data, value=obj, offset1=offset1, offset2=offset2, length=(offset2-offset1))", "        data = stream_read(stream, offset2-offset1-1, path)\n        return Container(data=data, value=obj, offset1=offset1, offset2=offset2, length=(offset2-offset1))"),
+    ('byteint-swap-sign', 'C03', CORE, "        if evaluate(self.swapped, context):\n            data = swapbytes(data)\n        try:\n            return bytes2integer(data, self.signed)", "        if not evaluate(self.swapped, context):\n            data = swapbytes(data)\n        try:\n            return bytes2integer(data, self.signed)"),
+    ('fixedsized-len', 'C08', CORE, "        substream = BytesIOWithOffsets.from_reading(stream, length, path)\n        return self.subcon._parsereport(substream, context, path)\n\n    def _build(self, obj, stream, context, path):\n        length = evaluate(self.length, context)",
+     "        substream = BytesIOWithOffsets.from_reading(stream, length - 1, path)\n        return self.subcon._parsereport(substream, context, path)\n\n    def _build(self, obj, stream, context, path):\n        length = evaluate(self.length, context)"),
+    ('prefixed-includelength', 'C03', CORE, "        if self.includelength:\n            length -= self.lengthfield._sizeof(context, path)\n        substream = BytesIOWithOffsets.from_reading", "        if not self.includelength:\n            length -= self.lengthfield._sizeof(context, path)\n        substream = BytesIOWithOffsets.from_reading"),
+    ('prefixed-outer-stream', 'C08', CORE, "        substream = BytesIOWithOffsets.from_reading(stream, length, path)\n        return self.subcon._parsereport(substream, context, path)\n\n    def _build(self, obj, stream, context, path):\n        stream2 = io.BytesIO()",
+     "        substream = BytesIOWithOffsets.from_reading(stream, length, path)\n        return self.subcon._parsereport(stream, context, path)\n\n    def _build(self, obj, stream, context, path):\n        stream2 = io.BytesIO()"),
+    ('prefixed-build-len', 'C03', CORE, "        length = len(data)\n        if self.includelength:\n            length += self.lengthfield._sizeof(context, path)", "        length = len(data) + 1\n        if self.includelength:\n            length += self.lengthfield._sizeof(context, path)"),
+    ('fixedsized-build-pad', 'C03', CORE, "        stream_write(stream, bytes(pad), pad, path)", "        stream_write(stream, bytes(pad-1), pad-1, path)"),
     ('sbib-order', 'C10', BIN, "for i in reversed(range(0,len(data),8)))", "for i in range(0,len(data),8))"),
     ('b2b-mod', 'C10', BIN, "if len(data) % 8 != 0:\n        raise ValueError(f\"data length {len(data)} must be", "if len(data) % 4 != 0:\n        raise ValueError(f\"data length {len(data)} must be"),
 ]
